@@ -20,7 +20,7 @@ S = lambda a: {"agg": a, "kind": "stat", "subj": "-"}    # noqa: E731
 
 STRICT_INVS = ["NoDupRows", "HeaderFirstOnce", "RowsAreSubjects", "SnapOnlyComplete", "ExactlyOnePerSubject",
                "NoCallFailed", "SiblingsIndependent"]
-OBS_INVS = ["NoDupRows", "HeaderFirstOnce", "RowsAreSubjects", "RowsAppendOnly", "ExactlyOnePerSubject", "SnapOnlyComplete",
+OBS_INVS = ["NoDupRows", "HeaderFirstOnce", "RowsAreSubjects", "RowsAppendOnly", "ExactlyOnePerSubject", "SnapOnlyComplete", "SnapWithinRead",
             "NoCallFailed", "ForeignRefused", "CtorSucceeds"]
 
 
@@ -278,9 +278,10 @@ def sessions_from_behaviour(beh):
 # --------------------------------------------------------------------------------------
 # scenarios
 # --------------------------------------------------------------------------------------
-def scn(name, aggs, calls, init="absent", prior=(), normal_exit=True, same_dir=True, out_names=None, workers="threads"):
+def scn(name, aggs, calls, init="absent", prior=(), normal_exit=True, same_dir=True, out_names=None, workers="threads",
+        split_writes=False):
     return dict(aggs=aggs, calls=calls, init=init, prior=list(prior), normal_exit=normal_exit, same_dir=same_dir, name=name,
-                out_names=out_names or {}, workers=workers)
+                out_names=out_names or {}, workers=workers, split_writes=split_writes)
 
 
 C16_SCENARIOS = [
@@ -292,8 +293,13 @@ C16_SCENARIOS = [
     # the same calls by forked worker processes (the real lock objects decide who gets in)
     scn("dup-processes", ["A"], [E("A", "a"), E("A", "b"), E("A", "a")], workers="processes"),
     scn("four-processes+stat", ["A"], [E("A", "a"), E("A", "b"), E("A", "c"), S("A")], init="header", workers="processes"),
+    # the environment in which a row reaches the file in two pieces (a long row through a buffered
+    # writer): statistics built in between must still reflect only complete rows
+    scn("split+stat", ["A"], [E("A", "a"), E("A", "b"), S("A"), S("A")], split_writes=True),
+    scn("split-continue+stat", ["A"], [E("A", "a"), S("A"), E("A", "b")], init="rows", prior=["z"], split_writes=True),
 ]
-MC16 = {"dup+stat": "MC_Agg_c16_dup.cfg", "triple": "MC_Agg_c16_triple.cfg", "four": "MC_Agg_c16_four.cfg"}
+MC16 = {"dup+stat": "MC_Agg_c16_dup.cfg", "triple": "MC_Agg_c16_triple.cfg", "four": "MC_Agg_c16_four.cfg",
+        "split+stat": "MC_Agg_c16_split.cfg"}
 
 
 def jobs_random(scns, n_per, base_seed, root, kill=False, sessions=1):
@@ -326,6 +332,13 @@ def preemption_schedules(sc, root, limit, rng):
     rng.shuffle(cands)
     for k, (prefix,) in enumerate(cands[:limit]):
         jobs.append((sc, [{"policy": ("script", prefix), "kill_at": None}], str(root / f"p{k}"), "one-preemption"))
+    # switch and stay: at position i another call takes over and runs as far as it gets.  Positions inside a
+    # critical window of the environment (right after the first piece of a split row went out) are all taken
+    stay = [(i, other) for i in positions for other in calls if other != sched[i]]
+    window = [(i, o) for (i, o) in stay if i > 0 and i - 1 < len(ops) and ops[i - 1][1] in ("part_out", "flush_out")]
+    rng.shuffle(stay)
+    for k, (i, other) in enumerate(window + stay[: max(2, limit // 2)]):
+        jobs.append((sc, [{"policy": ("script", sched[:i] + [other] * 12), "kill_at": None}], str(root / f"s{k}"), "switch-and-stay"))
     # two preemptions: extend some one-preemption prefixes
     for k, (prefix,) in enumerate(cands[: max(1, limit // 3)]):
         other = rng.choice(calls)
@@ -377,13 +390,16 @@ def check_C16(tier: str, v: Verdict):
     try:
         run_models(v, [("MC_Aggregator", c) for c in MC16.values()])
         if tier == "thorough":
+            # a statistics call under the wrong lock must be caught by the model in the split-write environment
+            self_test_models(v, [("MC_Aggregator", "MC_Agg_legacy_statlock.cfg", "SnapOnlyComplete")])
+        if tier == "thorough":
             run_models(v, [("MC_Aggregator", "MC_Agg_c16_five.cfg")], timeout=3000)
         results = []
         # (S -> C) behaviours of the model, replayed on real threads
         nb = 12 if tier == "quick" else 150
         jobs = []
         expect = {}
-        for sc in C16_SCENARIOS[:3]:
+        for sc in [x for x in C16_SCENARIOS if x["name"] in MC16]:
             beh, r = tlc_behaviours(MC16[sc["name"]], nb, 200, seed() + 1)
             v.add_tlc(r)
             for bi, b in enumerate(beh):
